@@ -37,6 +37,8 @@ CFG = {
         "match is kept explicitly in case_accept: `drained` = the action list releases every caller of an ordered program "
         "(completion); it is a fact about the harness's schedule (it always drains; a deadlock would stop the drain and is "
         "itself excluded at every round by the derived progress clause), not about the model. "
+        "Generation stops after 25 ordered schedules that ended in an anomaly or deadlock (never on a correct locker): a "
+        "diverging implementation leaves goroutines parked for good and must not make the check slow. "
         "Modelling choices: the table mutex is not a model lock - every table section is one atomic label except the "
         "multi-key unlock section, which is split per key (the code's coarser atomicity admits a subset of the model's "
         "schedules, so the safety theorems cover it); a step the Go code could only take by faulting (nil entry, "
@@ -55,7 +57,11 @@ CFG = {
         "freshly built locker; plus the class long-lists (50 per quick run): sharded generic lockers (modulo/xxhash; 2, 3, 73 "
         "shards), Locks/RLocks of 13-24 keys ascending in one global order with several keys per shard, either "
         "parked at a helper-held key and probed by single-key Locks on same-shard keys before/after it, or two such "
-        "callers sharing same-shard keys behind private blockers and then drained; a case is non-trivial when it has at least 6 rounds and at some quiescent point a live "
+        "callers sharing same-shard keys behind private blockers and then drained; key values: the single interface{}-keyed KeyLocker mostly gets boundary keys (untyped nil, typed nil pointers, 0, "", "
+        "struct{}{}, false, [0]int{}, 0.0 - all legal, distinct map keys; the sharded interface-keyed lockers panic on nil in "
+        "remap.ToBytes before touching any state, recorded as advisory meta, so they keep hashable keys); on the generic lockers "
+        "3 of 4 universes pass multi-key lists in per-caller buffers that are REUSED and overwritten in place for the next call "
+        "and scrambled as soon as Locks/RLocks returns (Unlocks gets a fresh equal slice); a case is non-trivial when it has at least 6 rounds and at some quiescent point a live "
         "caller was blocked (had not returned); distinct = distinct Coq case term (actions + observations + labels)"
     ),
     "trusted": [
